@@ -706,6 +706,18 @@ func formatTupleAsString(val interface{}) string {
 	return "(" + strings.Join(parts, ", ") + ")"
 }
 
+// escapeControlCharsNested writes the control characters of a string element of an array or
+// tuple that is itself rendered as a string literal as their escape sequences (a line break is
+// the two characters \n of the source text, escaped once more for the EXPLAIN layout), so that
+// the rendering stays on one line.
+func escapeControlCharsNested(s string) string {
+	if !strings.ContainsAny(s, "\n\t\r\x00\b\f") {
+		return s
+	}
+	return strings.NewReplacer("\n", "\\\\\\\\n", "\t", "\\\\\\\\t", "\r", "\\\\\\\\r",
+		"\x00", "\\\\\\\\0", "\b", "\\\\\\\\b", "\f", "\\\\\\\\f").Replace(s)
+}
+
 // formatElementAsString formats a single element for array/tuple string representation
 func formatElementAsString(expr ast.Expression) string {
 	switch e := expr.(type) {
@@ -730,6 +742,7 @@ func formatElementAsString(expr ast.Expression) string {
 			// Expected output format is \\\' (three backslashes + quote)
 			// Triple-escape single quotes for nested string literal context
 			s = strings.ReplaceAll(s, "'", "\\\\\\'")
+			s = escapeControlCharsNested(s)
 			return "\\\\\\'" + s + "\\\\\\'"
 		case ast.LiteralBoolean:
 			if e.Value.(bool) {
